@@ -175,8 +175,9 @@ func goid() int64 {
 // mining
 
 type c20Op struct {
-	K string `json:"k"`
-	X string `json:"x"`
+	K   string `json:"k"`
+	X   string `json:"x"`
+	Syn bool   `json:"syn,omitempty"` // not announced by a hook: inferred from measuring the mutex
 }
 
 func measureMu(mu *sync.RWMutex) string {
@@ -208,30 +209,94 @@ func c20MineOne(sc c20Scenario) c20Mined {
 	var notes, undis []string
 	mus := map[string]*sync.RWMutex{}
 	me := goid()
+	// tracked[m]: what the recorded program says this request holds on mutex m
+	tracked := map[string]int{} // >0: read locks, -1: write lock
+	guardOf := map[string]string{"data": "store", "sps": "cfg", "store": "store", "cfg": "cfg"}
+	// resync compares the measured state of every mutex seen so far with the recorded program and
+	// inserts the acquisitions / releases that happened without an announcing hook
+	resync := func(skip string) {
+		for name, m := range mus {
+			if name == skip {
+				continue
+			}
+			got := measureMu(m)
+			switch {
+			case tracked[name] == 0 && got == "read":
+				ops = append(ops, c20Op{K: "RLock", X: name, Syn: true})
+				tracked[name] = 1
+				notes = append(notes, "unannounced read lock on "+name+" detected by measurement")
+			case tracked[name] == 0 && got == "write":
+				ops = append(ops, c20Op{K: "Lock", X: name, Syn: true})
+				tracked[name] = -1
+				notes = append(notes, "unannounced write lock on "+name+" detected by measurement")
+			case tracked[name] > 0 && got == "none":
+				for ; tracked[name] > 0; tracked[name]-- {
+					ops = append(ops, c20Op{K: "RUnlock", X: name, Syn: true})
+				}
+				notes = append(notes, "unannounced release of the read lock on "+name+" detected by measurement")
+			case tracked[name] < 0 && got == "none":
+				ops = append(ops, c20Op{K: "Unlock", X: name, Syn: true})
+				tracked[name] = 0
+				notes = append(notes, "unannounced release of the write lock on "+name+" detected by measurement")
+			}
+		}
+	}
 	samlidp.VerifHook = func(ev, res string, mu *sync.RWMutex) {
 		if goid() != me {
 			return
 		}
+		g := guardOf[res]
+		mus[g] = mu
+		if ev == "rlock-acq" || ev == "lock-acq" {
+			resync(g) // the announced mutex has just changed; the others are compared
+		} else {
+			resync("")
+		}
+		defer func() {
+			// keep the tracked state in step with what was just recorded
+			if len(ops) == 0 {
+				return
+			}
+			last := ops[len(ops)-1]
+			if last.Syn {
+				return
+			}
+			switch ev {
+			case "rlock-acq", "lock-acq", "runlock", "unlock":
+				switch last.K {
+				case "RLock":
+					tracked[last.X]++
+				case "Lock":
+					tracked[last.X] = -1
+				case "RUnlock":
+					if tracked[last.X] > 0 {
+						tracked[last.X]--
+					}
+				case "Unlock":
+					tracked[last.X] = 0
+				}
+			}
+		}()
 		switch ev {
 		case "rlock-acq", "lock-acq":
 			mus[res] = mu
 			switch measureMu(mu) {
 			case "read":
-				ops = append(ops, c20Op{"RLock", res})
+				ops = append(ops, c20Op{K: "RLock", X: res})
 				if ev == "lock-acq" {
 					notes = append(notes, "announced write lock on "+res+" measured as read lock")
 				}
 			case "write":
-				ops = append(ops, c20Op{"Lock", res})
+				ops = append(ops, c20Op{K: "Lock", X: res})
 			default:
 				notes = append(notes, "announced "+ev+" on "+res+" but the mutex is not held")
 			}
 		case "runlock", "unlock":
 			switch measureMu(mu) {
 			case "read":
-				ops = append(ops, c20Op{"RUnlock", res})
+				ops = append(ops, c20Op{K: "RUnlock", X: res})
 			case "write":
-				ops = append(ops, c20Op{"Unlock", res})
+				ops = append(ops, c20Op{K: "Unlock", X: res})
 			default:
 				notes = append(notes, "announced "+ev+" on "+res+" but the mutex is not held")
 			}
@@ -241,18 +306,19 @@ func c20MineOne(sc c20Scenario) c20Mined {
 				undis = append(undis, fmt.Sprintf("%s of %s with its guard measured %q", ev, res, mode))
 			}
 			if ev == "read" {
-				ops = append(ops, c20Op{"RB", res})
+				ops = append(ops, c20Op{K: "RB", X: res})
 			} else {
-				ops = append(ops, c20Op{"WB", res})
+				ops = append(ops, c20Op{K: "WB", X: res})
 			}
 		case "read-end":
-			ops = append(ops, c20Op{"RE", res})
+			ops = append(ops, c20Op{K: "RE", X: res})
 		case "write-end":
-			ops = append(ops, c20Op{"WE", res})
+			ops = append(ops, c20Op{K: "WE", X: res})
 		}
 	}
 	w := doHTTP(e.srv, q)
 	samlidp.VerifHook = nil
+	resync("")
 	var leaks []string
 	for name, mu := range mus {
 		if m := measureMu(mu); m != "none" {
@@ -513,6 +579,12 @@ func c20Replay(cex c20Cex, progs []c20Mined) c20ReplayResult {
 		}
 		o := ops[pc[pid-1]]
 		switch {
+		case o.Syn:
+			// an acquisition / release no hook announces: it happens on the way to the next park
+			pc[pid-1]++
+			if p.parked && p.at == "start:" {
+				p.step(gateWait)
+			}
 		case o.K == "Lock" && !announced[pid-1]:
 			announced[pid-1] = true
 			p.advanceTo("lock-req:" + o.X)
